@@ -114,6 +114,12 @@ func c06RunChar(c c06Char) error {
 	if _, ok := sp.ValidStrings(ev.Pick(20000, 200000)); !ok {
 		return &ev.Skip{Why: "cell too large"}
 	}
+	// recipes easily confused with this one are used first in this process
+	for _, sib := range gen.Siblings(sp) {
+		sr := toRecipe(sib)
+		sr.Entropy()
+		sr.Alphabet()
+	}
 	r := toRecipe(sp)
 	ent := r.Entropy()
 	ref, err := findRef(r, c.Key, 400)
